@@ -266,6 +266,13 @@ type Contract struct {
 	Line     int
 }
 
+type typeInvariant struct {
+	Recv   string
+	Clause Clause
+}
+
+var typeInvariants []typeInvariant
+
 // readContracts parses //@ lines of the given file.
 func readContracts(path string) (map[string]*Contract, error) {
 	data, err := os.ReadFile(path)
@@ -372,6 +379,17 @@ func readContracts(path string) (map[string]*Contract, error) {
 			}
 			curLoop = &LoopContract{}
 			cur.Loops[n] = curLoop
+		case "type-invariant":
+			// type-invariant (*T): <expr over self>   -- required and ensured by every exported method of *T
+			i := strings.Index(rest, ":")
+			if i < 0 {
+				return nil, fmt.Errorf("%s:%d: type-invariant needs ':'", path, ln+1)
+			}
+			c, err := mk(strings.TrimSpace(rest[i+1:]))
+			if err != nil {
+				return nil, err
+			}
+			typeInvariants = append(typeInvariants, typeInvariant{Recv: strings.TrimSpace(rest[:i]), Clause: c})
 		case "pure":
 			cur.Pure = true
 		case "trusted":
